@@ -5,7 +5,7 @@
    (PotentialThms.unc_ok: the floor-free case).  phi s t = ncancel t - sum of _pending_uncancellations of the
    scopes hosted by t. *)
 From Coq Require Import ZArith.
-From AV Require Import Base Machine ScopeFrames DeliverInv TreeInv DeliverAlive PotentialInv TreeStep KernelInv DeliverThms PotentialThms CycleThms.
+From AV Require Import Base Machine ScopeFrames DeliverInv TreeInv DeliverAlive PotentialInv TreeStep KernelInv DeliverThms PotentialThms CycleThms NativeAbsorbed.
 
 (* the three RuntimeError guards of __exit__: otherwise nothing changes *)
 Theorem C05_scope_exit_guarded : forall s c t exc,
@@ -127,3 +127,19 @@ Theorem C05_loop_goes_idle_nonvacuous :
   reach_ok s /\ all_done s /\ ready s = [HDeliver 1] /\ ready (run_head s) = [] /\ timers (run_head s) = [].
 Proof. exact idle2_premises. Qed.
 Print Assumptions C05_loop_goes_idle_nonvacuous.
+
+(* ---- known finding F19: the interop clause at full strength is refuted ----
+   "Native asyncio constructs used around AnyIO scopes behave as if the scope had never been cancelled" would
+   require every native cancellation request to be raised in the task eventually (or to stay pending).  Witness
+   (also replayed against the real code from corpus/C05 on every run): a native Task.cancel() that arrives after
+   the scope's delivery has cancelled the task's wait is counted (cancelling() = 1) but never raised: the only
+   CancelledError that surfaces is the scope's own, which the scope absorbs; afterwards nothing is pending. *)
+Theorem C05_native_request_absorbed_refuted :
+  let s := final step init f19_ops in
+  existsb requests_native f19_ops = true /\
+  existsb is_native_result (results init f19_ops) = false /\
+  k_ncancel (tasks s 1%nat) = 1%nat /\ k_must (tasks s 1%nat) = false /\ k_held (tasks s 1%nat) = None /\
+  k_ctl (tasks s 1%nat) = CIdle /\
+  s_caught (scopes s 1%nat) = true /\ s_active (scopes s 1%nat) = false /\ s_pending (scopes s 1%nat) = 0%nat.
+Proof. exact native_request_absorbed_witness. Qed.
+Print Assumptions C05_native_request_absorbed_refuted.
